@@ -14,6 +14,7 @@ import (
 	"os"
 	"os/exec"
 	"regexp"
+	"runtime"
 	"sort"
 	"strconv"
 	"strings"
@@ -52,9 +53,11 @@ type CallCfg struct {
 	Flag     bool   `json:"flag"`     // ReturnErrOnFailedRuleEvaluation
 	CancelAt int    `json:"cancelAt"` // observable point at which the context is cancelled (-1 never, 0 before the call)
 	Deadline bool   `json:"deadline"` // use an already expired deadline instead of cancel (CancelAt == 0)
-	Shadow   bool   `json:"shadow"`   // run the same call once more on a fresh instance WITHOUT any listener and report its outcome with the return
-	NestAt   int    `json:"nestAt"`   // the NestAt-th fact-method call of the run executes another, independent rule set on the SAME engine value (0 never)
-	UseCtx   bool   `json:"useCtx"`   // ExecuteWithContext instead of Execute
+	LookAt   int    `json:"lookAt"`   // the context reports the cancellation from the LookAt-th time the engine consults it (0 never): reaches the
+	// points between two looks that no callback marks (e.g. between the engine's own check and the one inside RuleEntry.Evaluate)
+	Shadow bool `json:"shadow"` // run the same call once more on a fresh instance WITHOUT any listener and report its outcome with the return
+	NestAt int  `json:"nestAt"` // the NestAt-th fact-method call of the run executes another, independent rule set on the SAME engine value (0 never)
+	UseCtx bool `json:"useCtx"` // ExecuteWithContext instead of Execute
 }
 
 // Emitter writes ndjson events.
@@ -187,6 +190,29 @@ func cmdXprocStore() {
 	var buf bytes.Buffer
 	must(lib.StoreKnowledgeBaseToWriter(&buf, "kb", "1"))
 	os.Stdout.Write(buf.Bytes())
+}
+
+// lookCtx counts how often the engine consults the context: a cancellation can be placed before any given look.
+type lookCtx struct {
+	context.Context
+	onLook func(where string)
+}
+
+func (c *lookCtx) Err() error {
+	where := "other"
+	if pc, _, _, ok := runtime.Caller(1); ok {
+		name := runtime.FuncForPC(pc).Name()
+		switch {
+		case strings.HasSuffix(name, "(*RuleEntry).Evaluate"):
+			where = "evaluate"
+		case strings.HasSuffix(name, "(*RuleEntry).Execute"):
+			where = "execute"
+		case strings.Contains(name, "(*GruleEngine)."):
+			where = "engine"
+		}
+	}
+	c.onLook(where)
+	return c.Context.Err()
 }
 
 func nestedRun(eng *engine.GruleEngine) {
@@ -458,6 +484,22 @@ func runCall(c *Case, ci int, kb *ast.KnowledgeBase, em *Emitter, watchdog time.
 	}
 	w.F.hook = func(ev J) { em.Emit(ev) }
 	w.F.gate = gate
+	looks := 0
+	if cc.LookAt > 0 {
+		ctx = &lookCtx{Context: ctx, onLook: func(where string) {
+			if nesting {
+				return
+			}
+			looks++
+			if looks == cc.LookAt && !cancelled {
+				cancelled = true
+				// where: "engine" (the engine's own checks), "evaluate" / "execute" (the checks at the start of RuleEntry.Evaluate /
+				// RuleEntry.Execute: the rule announced last is then not run), "other"
+				em.Emit(J{"ev": "cancel", "site": -looks, "kind": "look:" + where})
+				cancel()
+			}
+		}}
+	}
 	begin := J{"ev": "begin", "id": c.ID*8 + ci, "call": ci, "mode": cc.Mode, "rules": c.RulesJS, "facts": w.Snapshot(),
 		"max": cc.Max, "flag": cc.Flag, "variant": c.Variant, "profile": c.Profile, "counted": c.Counted}
 	em.Emit(begin)
@@ -497,7 +539,7 @@ func runCall(c *Case, ci int, kb *ast.KnowledgeBase, em *Emitter, watchdog time.
 				r.sal = append(r.sal, re.Salience)
 				r.anyDel = r.anyDel || re.Deleted
 			}
-		} else if cc.UseCtx || cc.CancelAt >= 0 || cc.Deadline {
+		} else if cc.UseCtx || cc.CancelAt >= 0 || cc.Deadline || cc.LookAt > 0 {
 			r.err = eng.ExecuteWithContext(ctx, dc, kb)
 		} else {
 			r.err = eng.Execute(dc, kb)
@@ -541,6 +583,7 @@ func runCall(c *Case, ci int, kb *ast.KnowledgeBase, em *Emitter, watchdog time.
 		}
 	}
 	ret["lsnok"] = lsnOK
+	ret["looks"] = looks
 	ret["complete"] = dc.IsComplete()
 	if cc.Shadow && ci == 0 && cc.Mode == "exec" && cc.CancelAt < 0 && !cc.Deadline && !hung {
 		if facts0, err0, ok := shadowRun(c, cc, watchdog); ok {
